@@ -35,7 +35,9 @@ let time_cmd cmd tk = match cmd with
 let handle line =
   let tk = toks_of_line line in
   let cmd = next tk in
-  time_cmd cmd tk
+  match Static_cmds.static_cmd cmd tk with
+  | Some r -> r
+  | None -> time_cmd cmd tk
 
 let () =
   try
